@@ -22,6 +22,7 @@ def main():
         rp = os.path.join(os.path.dirname(m), "result.json")
         res = json.load(open(rp)) if os.path.exists(rp) else {}
         oc = "; ".join("%s: %s" % (k, ("caught — " + (v["lines"][1].strip()[:140] if len(v.get("lines", [])) > 1 else "VIOLATION")) if v.get("caught") else "MISSED (exit %s)" % v.get("exit")) for k, v in sorted(res.items())) or "not run yet"
+        if meta.get("status"): oc = meta["status"][:300]
         out.append("| %s | %s | %s | %s |" % (name, meta.get("property"), str(meta.get("needs", "")).replace("|", "/")[:260], oc.replace("|", "/")))
     cp = os.path.join(V, "design", "CORRECTIONS.md")
     out += ["", "## 9. Corrections: false alarms, withdrawn fixes and revised decisions", "",
